@@ -185,6 +185,38 @@ unsafe impl Sync for BlockAllocator {}
 // thread-affine resources; moving it to another thread is safe.
 unsafe impl Send for BlockAllocator {}
 
+#[cfg(feature = "verif")]
+pub fn verif_file_states() -> Vec<(String, u16, u16, u16, bool)> {
+    let map = FileStateTracker::map();
+    let r = map.read().unwrap();
+    let mut v: Vec<_> = r
+        .iter()
+        .map(|(k, st)| {
+            (
+                k.clone(),
+                st.locked_block_ctr.load(Ordering::Acquire),
+                st.checkpoint_block_ctr.load(Ordering::Acquire),
+                st.total_blocks.load(Ordering::Acquire),
+                st.is_fully_allocated.load(Ordering::Acquire),
+            )
+        })
+        .collect();
+    v.sort();
+    v
+}
+
+#[cfg(feature = "verif")]
+pub fn verif_block_states() -> Vec<(usize, String, bool)> {
+    let map = BlockStateTracker::map();
+    let r = map.read().unwrap();
+    let mut v: Vec<_> = r
+        .iter()
+        .map(|(k, b)| (*k, b.file_path.clone(), b.is_checkpointed.load(Ordering::Acquire)))
+        .collect();
+    v.sort();
+    v
+}
+
 pub(super) fn flush_check(file_path: String) {
     // readiness check fast path; hook actual reclamation later
     if let Some((locked, checkpointed, total, fully_allocated)) =
@@ -192,6 +224,8 @@ pub(super) fn flush_check(file_path: String) {
     {
         let ready_to_delete = fully_allocated && locked == 0 && total > 0 && checkpointed >= total;
         if ready_to_delete {
+            #[cfg(feature = "verif")]
+            crate::wal::verif::io_event("deletion_requested", &file_path, checkpointed as u64, total as u64);
             if let Some(tx) = DELETION_TX.get() {
                 let _ = tx.send(file_path);
             }
